@@ -262,6 +262,8 @@ class OpRunner(object):
             return d.available
         if k == 'locks':
             return _lock_states(d)
+        if k == 'maxchunk':
+            return d.max_chunk_size
         if k in ('shell', 'exec_out'):
             return getattr(d, k)(op['cmd'], decode=op.get('decode', True), **self._kw(op, T))
         if k == 'root':
@@ -387,6 +389,8 @@ class OpRunner(object):
             return d.available
         if k == 'locks':
             return _lock_states(d)
+        if k == 'maxchunk':
+            return d.max_chunk_size
         if k in ('shell', 'exec_out'):
             return await getattr(d, k)(op['cmd'], decode=op.get('decode', True), **self._kw(op, T))
         if k == 'root':
